@@ -30,7 +30,9 @@ class C10(object):
                          'model.judged', 'solver_reused.cases', 'ic_on_default_time.judged',
                          'solver_horizon_overrides_line.cases', 'horizon_assigned_after_parse.cases',
                          'exo_on_parameter.judged',
-                         'flat_block_without_simultaneous_part.cases')
+                         'flat_block_without_simultaneous_part.cases',
+                         'failed_period_tried_again_on_the_same_solver.cases',
+                         'model.exogenous_redeclared_through_alternating_routes')
 
     def n_cases(self, tier):
         return 320 if tier == 'quick' else 30000
@@ -45,6 +47,22 @@ class C10(object):
         if m in (13, 14):
             kind = rng.choice(['short_list', 'bad_exo', 'bad_ic', 'int_scalar', 'short_tuple', 'bad_ic_zero_div'])
             return {'kind': 'reject', 'what': kind, 'maxtime': rng.randint(1, 12), 'reduction': rng.random() < 0.5}
+        if m == 9:
+            # the caller drives the periods one by one; a period that runs out of sweeps is tried again on the same solver
+            # with a larger cap (possibly twice): every series still has horizon+1 points, lags stay aligned
+            g0, g1 = rng.choice([5.0, 10.0]), rng.choice([40.0, 80.0])
+            T_ = rng.randint(3, 8)
+            s_ = rng.randint(2, T_)
+            vals = [g0 + 0.001 * j for j in range(s_)] + [g1] * (T_ + 1 - s_)
+            ics = {'x': 1.6 * g0, 'y': 1.2 * g0, 'w': 2.0 + 0.4 * g0}
+            spec = {'simul': [{'name': 'x'}, {'name': 'y'}, {'name': 'w'}], 'lags': [{'name': 'LAG_x', 'src': 'x'}, {'name': 'LAG_g', 'src': 'g'}],
+                    'exos': [{'name': 'g', 'form': 'list', 'values': vals, 'text': repr(vals)}], 'consts': [], 'aliases': [],
+                    'decos': [{'name': 'd', 'expr': 'x + y'}], 'ics': ics, 'time': None, 'maxtime': T_}
+            text = ('x = 0.5*y + g\ny = 0.5*x + 0.25*LAG_x\nLAG_x = x(k-1)\nLAG_g = g(k-1)\nd = x + y\nw = 0.5*w + 0.125*LAG_x + 0.01*LAG_g + 1.0\n'
+                    'x(0) = %r\ny(0) = %r\nw(0) = %r\nMaxTime = %d\nErr_Tolerance = 1e-9\nexogenous\ng = %r'
+                    % (ics['x'], ics['y'], ics['w'], T_, vals))
+            return {'kind': 'solve', 'spec': spec, 'text': text, 'late_horizon': None, 'via': 'line',
+                    'reduction': rng.random() < 0.5, 'earlier': None, 'stepwise_retry': rng.choice([1, 2]), 'shock_at': s_}
         if m == 5:
             # a "flat" block: nothing simultaneous - every variable follows from exogenous and lagged values only
             T_ = rng.choice([1, 2, 3, 8, 20])
@@ -215,6 +233,35 @@ class C10(object):
                 pass
             rec.count('solver_reused.cases')
         late = case.get('late_horizon')
+        if case.get('stepwise_retry'):
+            from sfc_models.equation_solver import ConvergenceError as _CE
+            retried = 0
+            try:
+                with contextlib.redirect_stdout(io.StringIO()):
+                    solver.ParseString(case['text'])
+                    solver.ExtractVariableList()
+                    solver.SetInitialConditions()
+                    for step_ in range(1, T + 1):
+                        solver.MaxIterations = 4000 if step_ != case['shock_at'] else 6
+                        attempts = 0
+                        while True:
+                            try:
+                                solver.SolveStep(step_)
+                                break
+                            except _CE:
+                                attempts += 1
+                                retried += 1
+                                # first retry with a cap that is still too small (when two retries are asked for)
+                                solver.MaxIterations = 8 if attempts < case['stepwise_retry'] else 4000
+            except Exception as e:
+                rec.violate('well_formed_block_fails', {'err': repr(e)[:300], 'text': case['text'], 'stepwise_retry': True})
+                return {'verdict': 'violated', 'shape': 'solve|stepwise_retry', 'counters': rec.counters, 'violations': rec.violations}
+            if retried:
+                rec.count('failed_period_tried_again_on_the_same_solver.cases')
+            self.judge_series(rec, solver.TimeSeries, spec, T, case)
+            return {'verdict': 'violated' if rec.violations else 'held', 'nontrivial': retried > 0,
+                    'shape': 'solve|stepwise_retry', 'counters': rec.counters, 'violations': rec.violations,
+                    'obs': {'maxtime': T, 'retries': retried}}
         try:
             with contextlib.redirect_stdout(io.StringIO()):
                 solver.ParseString(case['text'])
@@ -375,6 +422,19 @@ class C10(object):
                 mod.AddInitialCondition(sec, var, value)
         if via_sector:
             rec.count('model.declared_through_sector_objects')
+        if (len(g) + 2 * T) % 3 == 0:
+            # the same variable declared exogenous several times, through the model by sector code AND through the sector
+            # object in alternation: the declaration made last is the one that counts
+            junk1 = [g_ + 7.0 for g_ in g]
+            junk2 = [g_ * 0.5 + 1.0 for g_ in g]
+            mod.AddExogenous('GOV', 'DEM_GOOD', junk1)
+            cty['GOV'].SetExogenous('DEM_GOOD', junk2)
+            if T % 2:
+                mod.AddExogenous('GOV', 'DEM_GOOD', junk1)
+            rec.count('model.exogenous_redeclared_through_alternating_routes')
+            if via_sector and T % 2 == 0:
+                # make sure the LAST declaration alternates with the one before it
+                mod.AddExogenous('GOV', 'DEM_GOOD', junk1)
         add_exo('GOV', 'DEM_GOOD', val)
         for key, pth in case.get('param_paths', {}).items():
             sec, var = key.split('|')
